@@ -2,6 +2,7 @@
 import ast
 
 from . import rule
+from ..paths import PathClient
 from ..core import AnalysisError, src_of, Class, Func
 from ..report import Finding
 from .. import effects, callgraph
@@ -147,46 +148,100 @@ def own_caller(p, res):
     res.require_floor(20)
 
 
+class RestoreClient(PathClient):
+    """typestate of the caller's `text` entry in markup.parse():  present -> hidden (set to None) -> restored.
+    Roles are resolved, not named: the override / restore are stores to <config>.user_config['text'], the saved value is the
+    local that read config.get('text') before, the protected calls are whatever runs while the entry is hidden."""
+
+    def __init__(self, p, f, saved, protected_ids, parse_fn, resolve_fn):
+        super().__init__(p, f)
+        self.saved, self.protected, self.parse_fn, self.resolve_fn = saved, protected_ids, parse_fn, resolve_fn
+        self.seen = {'override': 0, 'restore': 0, 'resolve_hidden': 0, 'parse': 0}
+
+    def _is_text_slot(self, t):
+        return isinstance(t, ast.Subscript) and isinstance(t.value, ast.Attribute) and t.value.attr == 'user_config' and self.p.try_const(self.f, t.slice) == 'text'
+
+    def on_store(self, it, s, target, value, stmt):
+        if not self._is_text_slot(target):
+            return s
+        v = stmt.value if isinstance(stmt, ast.Assign) else None
+        st = self.auto(s, 'present')
+        if isinstance(v, ast.Constant) and v.value is None:
+            self.seen['override'] += 1
+            if self.cond_value(s, self.saved) is not True:
+                self.bad(stmt, src_of(stmt), 'the override must happen only when a text was given (`if %s:`): otherwise a config without text is written to (it gains a `text: None` entry)' % self.saved, s)
+            return self.set_auto(s, 'hidden')
+        if isinstance(v, ast.Name) and v.id == self.saved:
+            self.seen['restore'] += 1
+            if st != 'hidden' and self.cond_value(s, self.saved) is not True:
+                self.bad(stmt, src_of(stmt), 'the restore must run under the same guard as the override (otherwise a config without text gains a `text` entry)', s)
+            return self.set_auto(s, 'present')
+        self.bad(stmt, src_of(stmt), "the caller's `text` entry is overwritten with something other than None (hide) or the saved text (restore)", s)
+        return s
+
+    def on_call(self, it, s, call):
+        st = self.auto(s, 'present')
+        tgt = self.p.resolve_call(self.f, call)
+        fns = tgt if isinstance(tgt, list) else []
+        if self.parse_fn in fns:
+            self.seen['parse'] += 1
+            if st == 'hidden':
+                self.bad(call, src_of(call).split('\n')[0], 'the user abbreviation is parsed while the text is hidden: the override must come after it (parsing needs the text)', s)
+        if st == 'hidden' and id(call) not in self.protected and not (isinstance(call.func, ast.Attribute) and call.func.attr in ('get',)):
+            self.bad(call, src_of(call).split('\n')[0], "a call runs while the caller's `text` is hidden but outside the try/finally that restores it: an exception here leaves the caller's config without its text", s)
+        if self.resolve_fn in fns:
+            if st == 'hidden':
+                self.seen['resolve_hidden'] += 1
+            elif self.cond_value(s, self.saved) is not False:
+                self.bad(call, src_of(call), 'snippets are resolved while the wrap text is still visible: the text would be inserted into every resolved snippet', s)
+        return s
+
+    def on_exit(self, it, s, value, stmt):
+        if self.auto(s, 'present') == 'hidden':
+            self.bad(stmt or self.f.node, 'exit of %s' % self.f.name, "a path leaves the function with the caller's `text` still hidden", s)
+        return s
+
+
 @rule('OWN-RESTORE', 'D', 'the temporary removal of `text` around snippet resolution is restored on every exit')
 def own_restore(p, res):
-    eff = effects.get(p)
+    from .. import shape
     f = p.func('markup.parse')
-    s = eff.sum[f.qualname]
-    body = f.node.body
-    tries = [st for st in body if isinstance(st, ast.Try) and st.finalbody]
-    calls_in_try = [src_of(c.func) for t in tries for c in ast.walk(ast.Module(body=t.body, type_ignores=[])) if isinstance(c, ast.Call)]
-    overrides = [n for n in f.body_nodes() if isinstance(n, ast.Assign) and src_of(n.targets[0]) == "config.user_config['text']" and src_of(n.value) == 'None']
-    if not overrides:
-        res.bad(F('OWN-RESTORE', f, f.node, "config.user_config['text'] = None", 'wrap text is no longer hidden from snippet resolution: the lines would be inserted into every resolved snippet'))
+    defs = shape.defs_of(f.node, params=f.params)
+    saved = [k for k, v in defs.items() if src_of(v) in ("config.get('text')", "config.user_config.get('text')")]
+    if len(saved) != 1:
+        res.undecided('markup.parse: saved text', "one local holding config.get('text') expected")
+        res.require_floor(3)
         return
-    ov = overrides[0]
-    if s.temp and 'snippets' in calls_in_try:
-        res.ok("config.user_config['text'] overridden before try, restored in finally; resolve_snippets runs inside the try")
-    else:
-        res.bad(F('OWN-RESTORE', f, ov, src_of(ov), 'the override of the caller\'s `text` is not restored in a finally block: an exception during snippet resolution or transformation leaves the caller\'s config without its text',
-                  failing_input="cfg={'text':'x','syntax':'xsl',..}; expand raising inside resolve"))
-    # only touched when set
-    par = p.parents(f).get(ov)
-    if isinstance(par, ast.If) and src_of(par.test) == 'text':
-        res.ok('override only when text is set')
-    else:
-        res.bad(F('OWN-RESTORE', f, ov, src_of(ov), 'the override must be guarded by `if text:` so that configs without text are never written'))
-    # the restore writes the same key under the same guard
-    restores = [n for t in tries for n in ast.walk(ast.Module(body=t.finalbody, type_ignores=[])) if isinstance(n, ast.Assign) and src_of(n.targets[0]) == "config.user_config['text']"]
-    if restores and src_of(restores[0].value) == 'text':
-        rp = p.parents(f).get(restores[0])
-        if isinstance(rp, ast.If) and src_of(rp.test) == 'text':
-            res.ok('restore guarded by the same condition')
-        else:
-            res.bad(F('OWN-RESTORE', f, restores[0], src_of(restores[0]), 'the restore must run under the same guard as the override (otherwise a config without text gains a `text: None` entry)'))
-    elif tries:
-        res.bad(F('OWN-RESTORE', f, tries[0], 'finally block', "finally must restore config.user_config['text'] = text"))
-    # the abbreviation itself is parsed *with* the text (before the override)
-    ab = [c for c in f.body_nodes() if isinstance(c, ast.Call) and src_of(c.func) == 'abbreviation']
-    if ab and ab[0].lineno < ov.lineno:
-        res.ok('the abbreviation is parsed before the override (it needs the text)')
-    else:
-        res.bad(F('OWN-RESTORE', f, ov, src_of(ov), 'the override must come after the user abbreviation was parsed (it needs the text) and immediately before the try'))
+    saved = saved[0]
+    fn = None
+    from .. import norm
+    fnode = norm.nf(p, f, inline=False)
+    # calls lexically inside a try whose finally restores the slot
+    protected = set()
+    for t in [n for n in shape.own_nodes(fnode) if isinstance(n, ast.Try) and n.finalbody]:
+        restores = [n for st in t.finalbody for n in ast.walk(st) if isinstance(n, ast.Assign) and isinstance(n.targets[0], ast.Subscript)
+                    and isinstance(n.targets[0].value, ast.Attribute) and n.targets[0].value.attr == 'user_config' and p.try_const(f, n.targets[0].slice) == 'text']
+        if restores:
+            for st in t.body:
+                for n in ast.walk(st):
+                    if isinstance(n, ast.Call):
+                        protected.add(id(n))
+    c = RestoreClient(p, f, saved, protected, p.func('abbreviation.parse'), p.func('markup.snippets.resolve_snippets'))
+    from ..absint import Interp, State
+    fl = Interp(p, f, c, body=fnode.body).run([State({})])
+    for s_, st in fl.rais:
+        if c.auto(s_, 'present') == 'hidden':
+            c.bad(st, 'exceptional exit of %s' % f.name, "an exception leaves the function with the caller's `text` still hidden", s_)
+    for node, construct, message, s_ in c.violations:
+        res.bad(F('OWN-RESTORE', f, node, construct, message, details=['path : ' + s_.show_trace()]))
+    if c.seen['override'] == 0:
+        res.bad(F('OWN-RESTORE', f, f.node, "config.user_config['text'] = None", 'wrap text is no longer hidden from snippet resolution: the lines would be inserted into every resolved snippet'))
+    elif not c.violations:
+        res.ok("config.user_config['text'] hidden only when set, restored on every normal and exceptional exit (%d exits)" % (len(fl.ret) + len(fl.rais)), n=2)
+    if c.seen['resolve_hidden'] and not c.violations:
+        res.ok('snippets are resolved while the text is hidden; the abbreviation itself is parsed before')
+    elif not c.seen['resolve_hidden'] and c.seen['override']:
+        res.undecided('resolve_snippets call', 'expected while the text is hidden')
     res.require_floor(3)
 
 
